@@ -151,6 +151,7 @@ class FnSpec:
         self.noret = False
         self.breakvals = []
         self.mutself = False
+        self.selfarg = None
         self.nested = {}
 
 
@@ -359,6 +360,9 @@ class Generator:
                         spec.cases.append(case)
                     elif cmd == "mutself":
                         spec.mutself = True
+                    elif cmd == "selfarg":
+                        nm, ty = arg.split(None, 1)
+                        spec.selfarg = (nm.strip(), ty.strip())
                     elif cmd == "breakval":
                         w2 = arg.split(None, 1)
                         spec.breakvals.append((int(w2[0]), w2[1].strip() if len(w2) > 1 else None))
@@ -522,6 +526,15 @@ class Generator:
             common.append((it["body"][0] + 1, it["body"][0] + 1, " let mut this = self;"))
             body_subs = [("R-MUTSELF", "self", "this")]
             self.log.append({"rule": "R-MUTSELF", "site": site, "what": "`mut self` => `self` + `let mut this = self;`, body uses `this`"})
+        if spec.selfarg:
+            # R-TRAIT: a trait method lifted to a free function: the receiver becomes an ordinary parameter
+            r = [x for x in sig["inputs"] if x["receiver"]]
+            if len(r) != 1:
+                raise Undecided("selfarg: no receiver")
+            old = src[r[0]["span"][0]:r[0]["span"][1]].decode()
+            common.append((r[0]["span"][0], r[0]["span"][1], "%s%s: %s" % ("mut " if old.replace(" ", "").startswith("mut") else "", spec.selfarg[0], spec.selfarg[1])))
+            body_subs = (body_subs or []) + [("R-TRAIT", "self", spec.selfarg[0])]
+            self.log.append({"rule": "R-TRAIT", "site": site, "what": "receiver `%s` => parameter `%s: %s`" % (old, spec.selfarg[0], spec.selfarg[1])})
         if sig["ret"] is not None and not spec.noret:
             rt = src[sig["ret"][0]:sig["ret"][1]].decode()
             common.append((sig["ret"][0], sig["ret"][0], "(%s: " % spec.ret))
@@ -538,6 +551,11 @@ class Generator:
             if m["name"] == "panic" and spec.panic is not None:
                 common.append((m["span"][0], m["span"][1], "{ proof { assert(%s); } diverge() }" % spec.panic))
                 self.log.append({"rule": "R-PANIC", "site": site})
+        # wild fn params (the verus! macro wants identifiers)
+        for pi, inp in enumerate(sig["inputs"]):
+            if inp.get("wild"):
+                common.append((inp["pat"][0], inp["pat"][1], "_w%d" % pi))
+                self.log.append({"rule": "R-WILD", "site": site})
         # wild closure params
         for k, c in enumerate([] if spec.external else it["closures"]):
             for pi, p in enumerate(c["params"]):
@@ -602,7 +620,7 @@ class Generator:
                 eds.append((body_s, body_e, spec_text + "{ unimplemented!() }"))
             else:
                 eds.append((body_s, body_s, spec_text))
-            text = apply_edits(src, s, e, eds, spec.subs, self.log if not emitted_any else [], site, body_subs=body_subs, body_start=it["body"][0] + 1)
+            text = apply_edits(src, s, e, eds, spec.subs, self.log if not emitted_any else [], site, body_subs=body_subs, body_start=it["body"][0])
             if it["vis"] is None and not spec.novis:
                 text = "pub " + text.lstrip()
             oid = "%s/%s%s" % (self.unit, spec.label or base, ("#" + suffix[2:]) if suffix else "")
